@@ -347,6 +347,78 @@ Section RegProofs.
 End RegProofs.
 
 (* ------------------------------------------------------------------------------------------ *)
+(* independence of two loads: a load only creates objects at fresh addresses [base, l_next)     *)
+(* ------------------------------------------------------------------------------------------ *)
+Section Fresh.
+  Variable Sc : Type.
+  Variable c : ctx Sc.
+  Variable base : addr.
+
+  Definition in_range (st : lstate Sc) : Prop :=
+    base <= l_next st /\ forall a o, alookup a (l_heap st) = Some o -> base <= a < l_next st.
+
+  Definition fresh_ok (n : nat) := forall id st a st',
+    from_reg n c id st = Some (a, st') -> in_range st -> in_range st' /\ l_next st <= l_next st'.
+
+  Lemma thread_load_fresh n (IH : fresh_ok n) : forall rs acc st ads st',
+    fold_left (fun (acc : option (list addr * lstate Sc)) r =>
+                 match acc with
+                 | Some (rs0, st0) => match from_reg n c r st0 with
+                                      | Some (a, st1) => Some (rs0 ++ [a], st1)
+                                      | None => None
+                                      end
+                 | None => None
+                 end) rs (Some (acc, st)) = Some (ads, st') ->
+    in_range st -> in_range st' /\ l_next st <= l_next st'.
+  Proof.
+    induction rs as [|r rs IHrs]; intros acc st ads st' H Hr; simpl in H.
+    - inversion H; subst. split; [exact Hr|lia].
+    - destruct (from_reg n c r st) as [[a st1]|] eqn:E.
+      + destruct (IH _ _ _ _ E Hr) as [R1 L1].
+        destruct (IHrs _ _ _ _ H R1) as [R2 L2]. split; [exact R2|lia].
+      + rewrite fold_none in H; [discriminate H|reflexivity].
+  Qed.
+
+  Lemma from_reg_fresh : forall n, fresh_ok n.
+  Proof.
+    induction n as [|n IH]; intros id st a st' H Hr; [discriminate H|].
+    simpl in H. destruct (alookup id (l_loaded st)) as [a0|].
+    - inversion H; subst. split; [exact Hr|lia].
+    - destruct (alookup id c) as [e|]; [|discriminate H].
+      unfold thread_load in H.
+      destruct (fold_left _ (o_refs e) (Some ([], st))) as [[rs st1]|] eqn:E; [|discriminate H].
+      destruct (thread_load_fresh n IH _ _ _ _ _ E Hr) as [[B1 R1] L1].
+      inversion H as [[Ha Hst]]. clear H. unfold in_range. cbn [l_next l_heap].
+      split; [split; [lia|]|lia].
+      intros a1 o Hl. cbn [alookup] in Hl. destruct (Nat.eqb a1 (l_next st1)) eqn:Ea.
+      + apply Nat.eqb_eq in Ea. lia.
+      + specialize (R1 _ _ Hl). lia.
+  Qed.
+
+  Theorem load_range fuel root r st :
+    from_registry fuel c root base = Some (r, st) ->
+    forall a o, alookup a (l_heap st) = Some o -> base <= a < l_next st.
+  Proof.
+    intro H. unfold from_registry in H.
+    assert (R0 : in_range {| l_heap := []; l_loaded := []; l_next := base |}).
+    { split; simpl; [lia|]. intros a o Ha; discriminate Ha. }
+    exact (proj2 (proj1 (from_reg_fresh fuel _ _ _ _ H R0))).
+  Qed.
+End Fresh.
+
+(* two loads of one dump (from_json called twice) share no object *)
+Theorem two_loads_disjoint (Sc : Type) (c : ctx Sc) fuel root b1 b2 r1 st1 r2 st2 :
+  from_registry fuel c root b1 = Some (r1, st1) ->
+  from_registry fuel c root b2 = Some (r2, st2) ->
+  l_next st1 <= b2 ->
+  forall a o1 o2, alookup a (l_heap st1) = Some o1 -> alookup a (l_heap st2) = Some o2 -> False.
+Proof.
+  intros H1 H2 Hb a o1 o2 A1 A2.
+  pose proof (load_range Sc c b1 fuel root r1 st1 H1 a o1 A1).
+  pose proof (load_range Sc c b2 fuel root r2 st2 H2 a o2 A2). lia.
+Qed.
+
+(* ------------------------------------------------------------------------------------------ *)
 (* the isomorphism theorem                                                                    *)
 (* ------------------------------------------------------------------------------------------ *)
 Section Iso.
